@@ -193,8 +193,10 @@ struct cmplx_t
     }
 
     cmplx_t& operator*=(const real_t& rhs) noexcept {
-        re *= rhs;
-        im *= rhs;
+        //rhs may be a component of *this (z *= z.re)
+        const real_t v = rhs;
+        re *= v;
+        im *= v;
         return *this;
     }
 
@@ -203,8 +205,9 @@ struct cmplx_t
     }
 
     cmplx_t& operator/=(const real_t& rhs) noexcept {
-        re = (re / rhs);
-        im = (im / rhs);
+        const real_t v = rhs;
+        re = (re / v);
+        im = (im / v);
         return *this;
     }
 
